@@ -88,13 +88,112 @@ def _bytes_consts(node):
         return None
 
 
+def expand_local_helpers(fn, cls):
+    """Analysis copy of ``fn`` in which ``[x =|return] self._h(a, ...)`` is replaced by the body of the private method
+    ``_h`` of the same class (instance or static) when that body is a straight line ending in its only return.  Parameters
+    are replaced by the argument expressions; a parameter the helper re-binds must be fed from a plain local that the
+    caller does not read afterwards (the local is then re-bound in its place).  Anything else is left as it is."""
+    from sa.source import methods as _methods
+    table = _methods(cls)
+
+    def helper(call):
+        if not (isinstance(call, ast.Call) and isinstance(call.func, ast.Attribute) and isinstance(call.func.value, ast.Name)
+                and call.func.value.id == "self" and call.func.attr.startswith("_") and not call.func.attr.startswith("__") and not call.keywords):
+            return None
+        h = table.get(call.func.attr)
+        if not isinstance(h, ast.FunctionDef) or h.args.vararg or h.args.kwarg or h.args.kwonlyargs or h.args.defaults:
+            return None
+        decs = [src(d) for d in h.decorator_list]
+        if decs not in ([], ["staticmethod"]):
+            return None
+        params = [a.arg for a in h.args.args][(0 if decs else 1):]
+        body = [st for st in h.body if not (isinstance(st, ast.Expr) and isinstance(st.value, ast.Constant))]
+        if len(params) != len(call.args) or not body or not isinstance(body[-1], ast.Return) or body[-1].value is None:
+            return None
+        if any(not isinstance(st, (ast.Assign, ast.Expr)) for st in body[:-1]) or any(isinstance(n, (ast.Yield, ast.YieldFrom, ast.Await, ast.Lambda)) for st in body for n in ast.walk(st)):
+            return None
+        return params, body
+
+    def expand(st, later_reads):
+        call = st.value if isinstance(st, (ast.Return, ast.Assign)) else None
+        if isinstance(st, ast.Assign) and not (len(st.targets) == 1 and isinstance(st.targets[0], ast.Name)):
+            return None
+        hp = helper(call)
+        if hp is None:
+            return None
+        params, body = hp
+        stored = {n.id for b in body for n in ast.walk(b) if isinstance(n, ast.Name) and isinstance(n.ctx, ast.Store)}
+        table_ = {}
+        for p_, a in zip(params, call.args):
+            if p_ in stored:
+                if not isinstance(a, ast.Name) or a.id in later_reads:
+                    return None
+                table_[p_] = a.id
+            else:
+                if not pure_expr(a):
+                    return None
+                table_[p_] = src(a)
+        caller_names = {n.id for n in ast.walk(fn) if isinstance(n, ast.Name)} | {a.arg for a in fn.args.args}
+        if (stored - set(params)) & caller_names:
+            return None
+        out = []
+        for b in body:
+            text = ast.unparse(b)
+            nb = ast.parse(text).body[0]
+
+            class R(ast.NodeTransformer):
+                def visit_Name(self, node):
+                    if node.id in table_:
+                        return ast.copy_location(ast.parse(table_[node.id], mode="eval").body if isinstance(node.ctx, ast.Load) else ast.Name(id=table_[node.id], ctx=ast.Store()), node)
+                    return node
+            nb = R().visit(nb)
+            out.append(nb)
+        last = out[-1]
+        if isinstance(st, ast.Assign):
+            out[-1] = ast.Assign(targets=[ast.Name(id=st.targets[0].id, ctx=ast.Store())], value=last.value, lineno=st.lineno)
+        for o in out:
+            ast.copy_location(o, st)
+            for n in ast.walk(o):
+                ast.copy_location(n, st)
+        return out
+
+    def block(stmts_, after):
+        out = []
+        for i, st in enumerate(stmts_):
+            later = {n.id for s2 in stmts_[i + 1:] for n in ast.walk(s2) if isinstance(n, ast.Name) and isinstance(n.ctx, ast.Load)} | after
+            for field in ("body", "orelse", "finalbody"):
+                if isinstance(getattr(st, field, None), list) and not isinstance(st, (ast.FunctionDef, ast.AsyncFunctionDef, ast.ClassDef)):
+                    setattr(st, field, block(getattr(st, field), later))
+            new = expand(st, later)
+            out.extend(new if new is not None else [st])
+        return out
+
+    if not any(helper(c) for c in ast.walk(fn) if isinstance(c, ast.Call)):
+        return fn
+    v = ast.parse(ast.unparse(fn)).body[0]
+    v.body = block(v.body, set())
+    ast.fix_missing_locations(v)
+    for parent in ast.walk(v):
+        for child in ast.iter_child_nodes(parent):
+            child._parent = parent
+    v._parent = getattr(fn, "_parent", None)
+    return v
+
+
 def structural(ctx0):
     ctx = SCtx(ctx0)
     _ok_gp = False; _ok_sp = False; _ok_nk = False; _ok_dr = False; rfmt = None; pst = None
     mod = ctx.mod(TR)
     VT = Normaliser(mod, ["SSHTransportBase"], {"sendDisconnect", "getPacket", "sendPacket", "dispatchMessage", "_unsupportedVersionReceived",
                                                    "_allowedKeyExchangeMessageType"}, subscripts=False).view
-    VC = Normaliser(mod, ["SSHCiphers"], set()).view
+    _vc = Normaliser(mod, ["SSHCiphers"], set()).view
+    _ciph = next(c for c in mod.classes() if c.name == "SSHCiphers")
+    _vcc = {}
+
+    def VC(f):
+        if id(f) not in _vcc:
+            _vcc[id(f)] = expand_local_helpers(_vc(f), _ciph)
+        return _vcc[id(f)]
     mconst = {}
     for st in mod.tree.body:
         if isinstance(st, ast.Assign) and len(st.targets) == 1 and isinstance(st.targets[0], ast.Name) and isinstance(st.value, ast.Constant):
@@ -387,8 +486,16 @@ def structural(ctx0):
         bad = None
         n_eval = 0
         payv = ops[1].id
-        for B in (8, 16):
-            for n in range(0, 2 * 16 + 8):
+        # domain argument, checked on the code: the payload is looked at only through len(); everywhere else it is
+        # passed on whole (concatenated, compressed, queued)
+        for nm in [n for n in ast.walk(f) if isinstance(n, ast.Name) and n.id in (pl, payv) and isinstance(n.ctx, ast.Load)]:
+            par = getattr(nm, "_parent", None)
+            whole = (isinstance(par, ast.Call) and (call_name(par) == "len" or call_attr(par) in ("compress", "append", "encrypt", "makeMAC", "write"))) \
+                or (isinstance(par, ast.BinOp) and isinstance(par.op, ast.Add)) or isinstance(par, (ast.Tuple, ast.Assign))
+            need(ctx, whole, f"sendPacket reads the payload other than through len(): {src(par)[:60] if par is not None else nm.id} (domain argument not established)")
+        BLOCKS = (8, 16, 32, 64)
+        for B in BLOCKS:
+            for n in range(0, 2 * B + 8):
                 env = {pl: b"x" * n, mt: 94}
                 try:
                     av = {CE + ".encBlockSize": B}
@@ -403,8 +510,10 @@ def structural(ctx0):
                     bad = bad or f"block size {B}, payload {n} bytes: length field {length}, padding field {padf}, padding bytes {padn}, packet {total} bytes"
         ctx.check(bad is None, "framing/padding-arithmetic", q + " | <length, padding>",
                   f"RFC 4253 6 violated (padding >= 4, total a multiple of the block size, length = payload + padding + 1): {bad}",
-                  detail=f"{n_eval} evaluations: the arithmetic reads the payload only through len() and the block size only through % and +, so payload lengths "
-                         "0..39 cover every residue class of both block sizes twice (exhaustive over the classes the code distinguishes)")
+                  detail=f"{n_eval} evaluations of the repository's own arithmetic (const_eval, nothing run).  Domain argument: checked above that the "
+                         "payload is read only through len() (otherwise passed on whole) and the arithmetic is +, -, %, < on len(payload) and the block size, "
+                         f"so its outcome depends only on len(payload) mod block size and on one carry; for each block size B in {BLOCKS} the lengths "
+                         "0..2B+7 visit every residue class at least twice (both sides of every carry): exhaustive over the classes the code can distinguish")
     with abstain(ctx0, 's/sendPacket/compression', 'sender/ and rekey/ (bounded)'):
         ctx.need(_ok_sp, 'anchors of sendPacket (section skipped)')
         comp = call_nodes(g, lambda c: csrc(c.func, al) == "self.outgoingCompression.compress")
@@ -485,6 +594,45 @@ def structural(ctx0):
                 ctx.check(okc, "tables/compression-handled", f"{q} | {name!r} {d}",
                           f"compression {name!r} is offered in supportedCompressions but _newKeys does not install a zlib.{ctor} for the "
                           f"{'outgoing' if d == 'out' else 'incoming'} direction: one side compresses and the other does not")
+    with abstain(ctx0, 's/state/per-instance', 'rekey/queue-flushed-in-order (bounded, two transports)'):
+        # a mutable container created in the class body is shared by every transport of the process; it is per-connection state only
+        # if every instance rebinds it before mutating it
+        from sa.effects import class_accesses
+        tcls_ = ctx.cls(TR, "SSHTransportBase")
+        for name, val in class_assigns(tcls_).items():
+            mutable = isinstance(val, (ast.List, ast.Dict, ast.Set)) or (isinstance(val, ast.Call) and dotted(val.func) in ("list", "dict", "set", "deque", "collections.deque", "bytearray"))
+            if not mutable:
+                continue
+            acc = class_accesses(mod, tcls_, {name}, receivers={"self"})
+            inplace = [a for a in acc if a.kind not in ("assign", "rebind-empty", "delete")]
+            rebinds = [a for a in acc if a.kind in ("assign", "rebind-empty")]
+            if not inplace:
+                ctx.ok("state/per-instance", f"{QT}{name}", "class-level container never mutated through self")
+                continue
+            ctx.check(bool(rebinds), "state/per-instance", f"{QT}{name}",
+                      f"{name} is a mutable container created once in the class body and mutated through self ({inplace[0].func}: {inplace[0].kind}) but never "
+                      "re-bound per instance: all transports of the process share it - messages queued on one connection are sent on another")
+        ctx.ok("state/per-instance", QT + "<class-level containers>")
+    with abstain(ctx0, 's/sendPacket/kex-blocking', 'rekey/queue-flushed-in-order (bounded)'):
+        ctx.need(_ok_sp, 'anchors of sendPacket (section skipped)')
+        f, g, q = VT(ctx.func(TR, "SSHTransportBase.sendPacket")), None, QT + "sendPacket"
+        g = ctx.cfg(f)
+        wr = call_nodes(g, lambda c: call_name(c) == "self.transport.write")
+        idle = []       # edges on which no key exchange is in progress
+        for t in g.ids(lambda n: n.kind == "test"):
+            e = g.node(t).ast
+            if isinstance(e, ast.Compare) and len(e.ops) == 1 and {src(e.left), src(e.comparators[0])} == {"self._keyExchangeState", "self._KEY_EXCHANGE_NONE"}:
+                if isinstance(e.ops[0], (ast.Eq, ast.Is)):
+                    idle.append((t, "T"))
+                elif isinstance(e.ops[0], (ast.NotEq, ast.IsNot)):
+                    idle.append((t, "F"))
+        allowed = [(t, "T") for t in tests(g, lambda e: isinstance(e, ast.Call) and call_name(e) == "self._allowedKeyExchangeMessageType")]
+        need(ctx, bool(idle) and bool(allowed), "sendPacket: tests of _keyExchangeState and _allowedKeyExchangeMessageType as branch conditions")
+        for wn in wr:
+            w = edge_path(g, [g.entry], [wn], avoid_edges=idle + allowed)
+            ctx.check(w is None, "kex/blocked-before-write", q + " | <transport.write>",
+                      "a message can reach transport.write although a key exchange is in progress and the message type is not allowed during key exchange "
+                      "(RFC 4253 7.1): it is encrypted with keys the peer is about to replace", witness=g.describe(w))
     with ctx.section('tables'):
         ca = class_assigns(ctx.cls(TR, "SSHTransportBase"))
         ccls = ctx.cls(TR, "SSHCiphers")
@@ -519,20 +667,32 @@ def structural(ctx0):
             ctx.check(not any(isinstance(n, ast.Attribute) and n.attr == wrong for n in ast.walk(fn)), "mac/direction", q,
                       f"{fn.name} uses self.{wrong}: the {'outgoing' if direction == 'out' else 'incoming'} MAC is computed with the key of the other direction")
             seqp, datap = fn.args.args[1].arg, fn.args.args[2].arg
+            hm = [c for c in ast.walk(fn) if isinstance(c, ast.Call) and call_name(c) in ("hmac.HMAC", "hmac.new", "HMAC")]
+            ctx.need(len(hm) == 1 and len(hm[0].args) == 3, f"{fn.name}: one hmac.HMAC(key, message, digestmod) call (directly or in a straight-line private helper)")
+            msg = hm[0].args[1]
             reb = [st for st in statements(fn) if isinstance(st, ast.Assign) and any(isinstance(t, ast.Name) and t.id == datap for t in st.targets)]
+            if isinstance(msg, ast.Name) and msg.id == datap and len(reb) == 1:
+                authenticated = reb[0].value
+            elif isinstance(msg, ast.Name) and msg.id == datap and not reb:
+                authenticated = msg
+            elif isinstance(msg, ast.Name):
+                defs = [st for st in statements(fn) if isinstance(st, ast.Assign) and any(isinstance(t, ast.Name) and t.id == msg.id for t in st.targets)]
+                ctx.need(len(defs) == 1 and not reb, f"{fn.name}: the authenticated string has one definition")
+                authenticated = defs[0].value
+            else:
+                ctx.need(not reb, f"{fn.name}: the authenticated string has one definition")
+                authenticated = msg
             okr = False
             fmt = None
-            if len(reb) == 1:
-                ops = flatten_add(reb[0].value)
-                if len(ops) == 2 and isinstance(ops[0], ast.Call) and call_name(ops[0]) in ("struct.pack", "pack") and len(ops[0].args) == 2 \
-                        and src(ops[0].args[1]) == seqp and src(ops[1]) == datap:
-                    fmt = const_eval(ops[0].args[0], {})
-                    okr = struct_fmt_norm(fmt) == ("big", "L")
-            ctx.check(okr, "mac/covers-sequence-number", q, f"the authenticated string is not uint32(sequence number) || packet in {fn.name}")
-            hm = [c for c in ast.walk(fn) if isinstance(c, ast.Call) and call_name(c) in ("hmac.HMAC", "hmac.new", "HMAC")]
-            okh = len(hm) == 1 and len(hm[0].args) == 3 and src(hm[0].args[0]) == f"self.{mac_attr}.key" and src(hm[0].args[1]) == datap and src(hm[0].args[2]) == f"self.{mac_attr}[0]"
+            ops = flatten_add(authenticated)
+            if len(ops) == 2 and isinstance(ops[0], ast.Call) and call_name(ops[0]) in ("struct.pack", "pack") and len(ops[0].args) == 2 \
+                    and src(ops[0].args[1]) == seqp and src(ops[1]) == datap:
+                fmt = const_eval(ops[0].args[0], {})
+                okr = struct_fmt_norm(fmt) == ("big", "L")
+            ctx.check(okr, "mac/covers-sequence-number", q, f"the authenticated string is not uint32(sequence number) || packet in {fn.name}: {src(authenticated)[:80]}")
+            okh = src(hm[0].args[0]) == f"self.{mac_attr}.key" and src(hm[0].args[2]) == f"self.{mac_attr}[0]"
             ctx.check(okh, "mac/siblings-agree", q, f"{fn.name} does not compute HMAC(self.{mac_attr}.key, seq||packet, self.{mac_attr}[0])")
-            shapes[direction] = (fmt, [src(a).replace(mac_attr, "XMAC") for a in hm[0].args] if hm else None)
+            shapes[direction] = (fmt, [src(hm[0].args[0]).replace(mac_attr, "XMAC"), src(hm[0].args[2]).replace(mac_attr, "XMAC")])
             g = ctx.cfg(fn)
             off = truth_edges(g, lambda e, a=mac_attr: src(e) == f"self.{a}[0]", False)
             ctx.check(bool(off), "mac/none-path", q, f"{fn.name} has no branch for 'no MAC configured'")
@@ -617,9 +777,18 @@ def structural(ctx0):
         gvt = set(gv_true)
         unknown = g.reach([g.entry], avoid=set(gv_set) | set(gp), edge_ok=lambda a, b, l: l != "exc" and (a, l) not in gvt)
         escapes = sorted({(p_, lab) for n in gp for p_, lab in g.pred[n] if p_ in unknown and lab != "exc" and (p_, lab) not in gvt and p_ not in gp})
+        scan_loops = [n for n in g.ids(lambda n: n.kind == "for") if any(edge_path(g, [n], [s_], strict=True) for s_ in gv_set)]
+        seen_labels = set()
         for p_, lab in escapes:
             w = edge_path(g, [g.entry], [p_], avoid_nodes=gv_set, avoid_edges=gv_true)
-            ctx.violation("version/packets-only-after-version", f"{q} | {g.node(p_).text()} -> self.getPacket()",
+            # semantic label of the escape: does every version-less way to it run through the end of the version scan?
+            via_scan = (p_ in scan_loops and lab == "done") or bool(scan_loops) and edge_path(
+                g, [g.entry], [p_], avoid_nodes=gv_set, avoid_edges=list(gv_true) + [(l, "done") for l in scan_loops]) is None
+            label = "<version scan ended without a version line>" if via_scan else f"{g.node(p_).text()} -> self.getPacket()"
+            if label in seen_labels:
+                continue
+            seen_labels.add(label)
+            ctx.violation("version/packets-only-after-version", f"{q} | {label}",
                           "getPacket() is reached while the peer's version line has not been seen: identification (banner) text delivered on its own is parsed "
                           "as a binary packet and the connection is dropped with 'bad packet length'", witness=g.describe((w or []) + [gp[0]]))
         if not escapes:
@@ -632,7 +801,7 @@ def structural(ctx0):
         fr = g.node(loop).ast
         for s in gv_set:
             w = edge_path(g, [s], [loop], strict=True)
-            ctx.check(w is None, "version/first-version-line-only", ctx.construct(q, g.node(s).ast),
+            ctx.check(w is None, "version/first-version-line-only", q + " | <version line accepted, scan continues>",
                       "after the version line was accepted the remaining 'lines' - which are binary packet data - are still scanned for 'SSH-': a payload "
                       "containing '\\nSSH-...\\n' that arrives in the same segment is taken for a second version line and the packet stream is cut",
                       witness=g.describe(w))
